@@ -11,6 +11,7 @@ from .parseable_str import (
 
 from pycoin.contrib import bech32m
 from pycoin.encoding.bytes32 import from_bytes_32
+from pycoin.encoding.exceptions import EncodingError
 from pycoin.encoding.hexbytes import b2h, h2b
 
 from .Contract import Contract
@@ -27,7 +28,11 @@ def hparse(api: ParseAPI, pub_prv: str, key_type: str, s: str) -> Any:
         return None
     parse_method_name = "%s_deserialize" % key_type
     parse_method = getattr(api._network.keys, parse_method_name, lambda *args: None)
-    return parse_method(data)
+    try:
+        return parse_method(data)
+    except (ValueError, EncodingError):
+        # wrong length, secret exponent out of range, invalid public key
+        return None
 
 
 class ParseAPI(object):
